@@ -2,4 +2,5 @@ import PyrollModel.Gen.C16
 import PyrollModel.MutualDriver
 /-- `lake env lean --run Drivers/c16.lean` : line-protocol driver of the symbolic hook interpreter over the tables
     generated for C16 (see PyrollModel/MutualDriver.lean for the protocol). -/
-def main : IO Unit := MutualDriver.main Gen.C16.classes
+def main : IO Unit := MutualDriver.main
+  { classes := Gen.C16.classes, conv := Gen.C16.hookget_call, copies := Gen.C16.template_copies }
